@@ -25,26 +25,26 @@ type loopFrame struct {
 }
 
 type fctx struct {
-	g      *golite
-	info   *types.Info
-	cfg    *fnCfg
-	fd     *ast.FuncDecl
-	names  map[types.Object]string
-	used   map[string]bool
-	recv   types.Object // pointer receiver (mutable state), nil otherwise
-	ptrs   map[types.Object]bool
-	cbs    map[types.Object]cbCfg
-	state  types.Object // pseudo object for the user state σ (nil when the function has no callbacks)
-	res    []ltype
-	pre    []string // hoisted monadic binds, to be flushed before the current statement
-	tmp    int
-	loops  []loopFrame
-	aux    []string // emitted loop definitions
-	loopNo int
-	params []string // Lean binder list of the function (for loops: subset is recomputed)
-	closure bool    // translating a function literal: only the receiver is threaded
-	closureOuts []types.Object // state-callback literal: its parameter and the captured variables it assigns
-	ifaceCb map[types.Object]map[string]string // interface parameter -> method -> Lean callback name
+	g           *golite
+	info        *types.Info
+	cfg         *fnCfg
+	fd          *ast.FuncDecl
+	names       map[types.Object]string
+	used        map[string]bool
+	recv        types.Object // pointer receiver (mutable state), nil otherwise
+	ptrs        map[types.Object]bool
+	cbs         map[types.Object]cbCfg
+	state       types.Object // pseudo object for the user state σ (nil when the function has no callbacks)
+	res         []ltype
+	pre         []string // hoisted monadic binds, to be flushed before the current statement
+	tmp         int
+	loops       []loopFrame
+	aux         []string // emitted loop definitions
+	loopNo      int
+	params      []string                           // Lean binder list of the function (for loops: subset is recomputed)
+	closure     bool                               // translating a function literal: only the receiver is threaded
+	closureOuts []types.Object                     // state-callback literal: its parameter and the captured variables it assigns
+	ifaceCb     map[types.Object]map[string]string // interface parameter -> method -> Lean callback name
 }
 
 var leanReserved = map[string]bool{"end": true, "at": true, "from": true, "fun": true, "do": true, "then": true, "else": true,
